@@ -28,6 +28,10 @@ def run(pid, tier, replay=None):
     r = vlib.run_harness([exe, out, sc.path("g"), "14", "3000" if q else "60000", str(ck.seed)], timeout=1800)
     m = re.search(r"^SUMMARY (\{.*\})$", r.stdout or "", re.M)
     if r.returncode != 0 or not m:
+        mh = re.search(r"^HANG (\{.*\})$", r.stdout or "", re.M)
+        if r.returncode == 96 and mh:
+            ck.violation("hang:planner", {"what": "a planner call did not return within 20 s", "request": mh.group(1)[:300]})
+            return ck.finish()
         if r.returncode in (96, 97, 98, 99, -6, -11) or "Sanitizer" in (r.stderr or ""):
             ck.violation("crash", {"what": "sanitizer abort in the trajectory routines", "stderr": (r.stderr or "")[-1500:]})
             return ck.finish()
